@@ -187,6 +187,32 @@ def c_dtypes(k):
                 got = coo.asformat(fmt)
                 got = got if isinstance(got, np.ndarray) else got.toarray()
                 k.prove(f"{name} block written twice + float block: format {fmt} equals the dense sum", np.array_equal(np.asarray(got, dtype=float), ref))
+        # the same for blocks handed over as scipy sparse arrays (their own branch of __setitem__) and nested CooMatrix blocks
+        from scipy.sparse import coo_array, csc_array, csr_array
+
+        for name, dt in (("int64", np.int64), ("int32", np.int32), ("float32", np.float32), ("bool", bool), ("float64", float)):
+            dense = (base % 2 == 0) if dt is bool else base.astype(dt)
+            for sname, ctor in (("csr_array", csr_array), ("csc_array", csc_array), ("coo_array", coo_array)):
+                coo = CooMatrix((4, 5))
+                try:
+                    coo[1:3, 2:5] = ctor(dense)
+                    coo[0:2, 0:3] = 0.5 * np.ones((2, 3))
+                    coo[1:3, 2:5] = ctor(dense)
+                    inner = CooMatrix((2, 3))
+                    inner[0:2, 0:3] = dense
+                    coo[1:3, 2:5] = inner
+                    ref = np.zeros((4, 5))
+                    ref[1:3, 2:5] += 3 * np.asarray(dense, dtype=float)
+                    ref[0:2, 0:3] += 0.5
+                    oks = []
+                    for fmt in ("array", "coo", "csr", "csc"):
+                        got = coo.asformat(fmt)
+                        got = got if isinstance(got, np.ndarray) else got.toarray()
+                        oks.append(np.array_equal(np.asarray(got, dtype=float), ref))
+                    ok, how = all(oks), str(oks)
+                except Exception as e:  # noqa: BLE001
+                    ok, how = False, f"raised {type(e).__name__}: {e}"
+                k.prove(f"{sname} of dtype {name} written twice + nested CooMatrix + float block: every format equals the dense sum", ok, show=how)
         coo = CooMatrix((3, 3))
         coo[1, 2] = 1
         coo[1, 2] = 2.5
